@@ -55,6 +55,27 @@ fn c04(d: &Digest, s: usize, out: &mut Vec<Violation>) {
             }
         }
     }
+    // (c) holds after ANY stop()/drop that returned, timed out or not: the queue was closed first
+    let first_returned = sd
+        .shutdowns
+        .iter()
+        .map(|&c| &d.calls[c])
+        .filter(|c| matches!(c.op, OpK::Stop { .. } | OpK::DropStore { .. }) && c.ret.is_some())
+        .min_by_key(|c| c.ret.unwrap());
+    if let (Some(x0), None) = (first_returned, sd.clean_stop) {
+        let p0: &'static str = if matches!(x0.op, OpK::DropStore { .. }) { "C15" } else { "C04" };
+        let r0 = x0.ret.unwrap();
+        for &ci in &sd.dispatches {
+            let c = &d.calls[ci];
+            if c.inv > r0 {
+                if let OpK::Dispatch { act, via, .. } = &c.op {
+                    if c.res != Some(Res::Err) {
+                        v(out, p0, "c:dispatch-after-stop-accepted", format!("store {s}: dispatch of {act} via {via:?} after stop()/drop had returned gave {:?}", c.res));
+                    }
+                }
+            }
+        }
+    }
     let Some(xi) = sd.clean_stop else { return };
     let x = &d.calls[xi];
     let xret = x.ret.unwrap();
